@@ -303,6 +303,22 @@ def fam_manager(rng, pid, count, fills=(False,), has=(False,), lifes=(None,), he
             sc["id"] = sc["id"].replace("/mgr", "/bare")
             if sc["prog"] and sc["prog"][-1][0] == "calculate":
                 sc["prog"] = sc["prog"][:-1]
+        if not tf and life is not None and sc["obj"] in ("ind", "hex") and not ha and rng.random() < 0.3:
+            # arrival-time stamps: about one candle a second with a jitter of quarter seconds, a lifespan that
+            # is not a whole number of seconds either (the window is exact to the stamp, not to the second)
+            sc["sub"] = 4
+            t_, st2 = 0.0, []
+            for (_ts, *rest) in sc["stream"]:
+                st2.append((t_,) + tuple(rest))
+                t_ += rng.choice([0.75, 1.0, 1.0, 1.25, 1.5, 2.0])
+            sc["stream"] = st2
+            lf = timedelta(seconds=rng.choice([2.25, 3.5, 4.75, 6.0, 7.25]))
+            if sc["obj"] == "hex":
+                sc["hex"] = dict(sc["hex"], lifespan=lf)
+            else:
+                sc["inds"][0].lifespan = lf
+            sc["twins"] = [x for x in sc["twins"] if x not in ("aligned",)]
+            sc["form"] = "candle"
         if collapse_ops and tf and rng.random() < 0.5:
             prog = []
             for st in sc["prog"]:
@@ -312,7 +328,7 @@ def fam_manager(rng, pid, count, fills=(False,), has=(False,), lifes=(None,), he
             sc["prog"] = prog
         if tz:
             sc["tz"] = tz
-            sc["form"] = rng.choice(["candle", "candle", "dict", "dict_iso", "candle_iso", "list"])
+            sc["form"] = rng.choice(["candle", "candle", "dict", "dict_iso", "candle_iso", "list", "candle_fold"])
         out.append(sc)
     return out
 
@@ -397,7 +413,7 @@ def fam_transitions(rng, pid, count):
         pre, chunks = compositions(rng, n, (0, 1, 2, n), 4)
         out.append({"id": f"{pid}/dst/{tz}/{day}/{tf}/{t}", "fam": "manager", "obj": "ind", "inds": [cfg],
                     "stream": st, "prog": prog_for(pre, chunks), "twins": [], "tz": tz, "base": day,
-                    "form": rng.choice(["candle", "candle", "dict", "dict_iso", "list"])})
+                    "form": rng.choice(["candle", "candle", "dict", "dict_iso", "list", "candle_fold"])})
     return out
 
 
@@ -479,6 +495,12 @@ def decorate(rng, scs):
     return scs
 
 
+def _touch_zero(sc):
+    lo = min(x[3] for x in sc["stream"])
+    sc["stream"] = [(ts, o - lo, h - lo, l - lo, c - lo, v) for ts, o, h, l, c, v in sc["stream"]]
+    return sc
+
+
 def scenarios(pid, tier, rng):
     scs = decorate(rng, _scenarios(pid, tier, rng))
     if pid in ("C04", "C05", "C06"):
@@ -553,7 +575,9 @@ def _scenarios(pid, tier, rng):
                 # with a lifespan and no timeframe the recurrence still has to be that of the whole stream
                 + fam_manager(rng, pid, k(60, 300), has=(True,), lifes=(3, 5, 8), units=("N",), twins=(), tag="c")
                 # Heikin-Ashi selected on a Hexital whose members sit on several timeframes of their own
-                + fam_hexital(rng, pid, k(30, 200), twins=(), force_ha=True))
+                + fam_hexital(rng, pid, k(30, 200), twins=(), force_ha=True)
+                # zero is a price too: the whole stream shifted down so that its lowest low is exactly 0
+                + [_touch_zero(sc) for sc in fam_manager(rng, pid, k(40, 240), has=(True,), twins=("batch",), tag="z")])
     if pid == "C15":
         return (fam_manager(rng, pid, k(160, 1000), lifes=(0, 1, 2, 3, 5, 8, 0.5), fills=(False, True))
                 + fam_manager(rng, pid, k(160, 1000), lifes=(6, 8, 12, 20), twins=("untrimmed",),
@@ -565,7 +589,10 @@ def _scenarios(pid, tier, rng):
                 + fam_transitions(rng, pid, k(160, 600)) + fam_aware(rng, pid, k(20, 150)))
     if pid == "C16":
         return (fam_movement(rng, pid, k(160, 800)) + fam_patterns(rng, pid, k(80, 400))
-                + fam_amorph(rng, pid, k(80, 400)))
+                + fam_amorph(rng, pid, k(80, 400))
+                # wrapped functions as Hexital members (own timeframes) under maintenance calls: recomputing an
+                # index, by positive, negative or default index, gives the function's answer for that candle
+                + fam_maintenance(rng, pid, k(60, 300), wrappers=True))
     if pid == "C17":
         return fam_movement(rng, pid, k(180, 900)) + fam_patterns(rng, pid, k(180, 900))
     if pid == "C14":
@@ -573,7 +600,10 @@ def _scenarios(pid, tier, rng):
     if pid == "C13":
         return fam_interference(rng, pid, k(90, 1000))
     if pid == "C19":
-        return fam_reads(rng, pid, k(280, 1200), forms=("candle", "dict", "list", "list_ts_last", "dict_iso"))
+        return (fam_reads(rng, pid, k(280, 1200), forms=("candle", "dict", "list", "list_ts_last", "dict_iso"))
+                # "delivers the same candle to every timeframe of a Hexital": also to one whose last member has
+                # left (the timeframe is still listed and can be joined again)
+                + fam_readd(rng, pid, k(20, 120), twins=()))
     if pid == "C20":
         return fam_reads(rng, pid, k(300, 1300), touches=False)
     if pid == "C08":
@@ -695,9 +725,11 @@ MAINT_OPS = ["append", "append", "append", "calculate", "purge", "recalculate", 
              "calculate_index", "add", "remove", "readd"]
 
 
-def fam_maintenance(rng, pid, count):
+def fam_maintenance(rng, pid, count, wrappers=False):
     out = []
     for t in range(count):
+        if wrappers and t % 3 == 0:
+            t += 1          # Hexitals only
         n = rng.randint(14, 22)
         if t % 3 == 0:       # standalone indicator
             cfg = rand_cfg(rng, rng.choice(NESTED + SIMPLE), tf=pick_tf(rng) if rng.random() < 0.3 else None,
@@ -716,13 +748,18 @@ def fam_maintenance(rng, pid, count):
                 tf = ladder[0]
             tf_of = (lambda: rng.choice(ladder + [None])) if ladder else (lambda: tf if rng.random() < 0.5 else None)
             cfgs = _uniq([rand_cfg(rng, k, tf=tf_of(), rv=rng.choice([4, 4, 0, 2, 3, 5])) for k in kinds])
+            if wrappers:
+                for _ in range(2):
+                    am = amorph_cfg(rng)
+                    am.timeframe = tf_of()
+                    cfgs = _uniq(cfgs + [am])
             late = _uniq(cfgs + [rand_cfg(rng, rng.choice(NESTED + SIMPLE), tf=tf_of())])[len(cfgs):]
             sc = {"id": f"{pid}/hex/{'+'.join(c.kind for c in cfgs)}/{t}", "fam": "maint", "obj": "hex",
                   "inds": cfgs, "late": late, "hex": {},
                   "stream": make_stream(rng, n, "mixed", tf=tf, regular=(tf_regular(rng, tf) if ladder else None)),
                   "twins": ["final_batch"], "member_forms": ["obj"] * len(cfgs),
                   "clause_props": {"exc": [pid], "batch": [pid], "value": [pid]}}
-            ops = MAINT_OPS
+            ops = MAINT_OPS + (["calculate_index"] * 5 if wrappers else [])
         sc["names_fixed"] = True
         out.append(grow_program(rng, sc, n, rng.randint(5, 10), ops))
     return out
